@@ -9,7 +9,7 @@ SPEC = dict(
           "with an independent digit-loop/odometer reference; buffers are exact-size heap blocks (ASan) and "
           "canary fields; round trip through stringTo<T>. 8/16-bit types: every value (exh16). 32-bit: every "
           "value within +-70000 of each power of ten, power of two, 0 and the limits (edge32), random values "
-          "with uniformly drawn bit width (rand32), thorough: all 2^32 values of int32_t and uint32_t (full32). "
+          "with uniformly drawn bit width (rand32), thorough: all 2^32 values of int32_t and uint32_t (full32, -O2 build with canary buffers) and every 8th block of 65536 values again in the ASan build with exact-size heap buffers (full32asan). "
           "64-bit: the same anchors +-radius (edge64) and random (rand64). distinct_nontrivial = number of "
           "distinct (type, value) pairs, counted by hash (random/edge modes) or by construction (exhaustive "
           "modes); every value is non-trivial (each exercises the length search and the digit switch)."),
@@ -25,8 +25,8 @@ SPEC = dict(
         dict(name="rand64", flavour="asan", cases={"quick": 1500000, "thorough": 50000000}, eval_stat="values", timeout=3600),
         dict(name="full32", flavour="fast", cases=65536, tiers=["thorough"], exhaustive=True, eval_stat="values",
              args={"heap": 0, "groupmask": 3}, timeout=7200),
-        dict(name="full32asan", hmode="full32", flavour="asan", cases=65536, tiers=["thorough"], exhaustive=True,
-             eval_stat="values", args={"heap": 1, "groupmask": 1}, timeout=14400),
+        dict(name="full32asan", hmode="full32", flavour="asan", cases=8192, tiers=["thorough"],
+             eval_stat="values", args={"heap": 1, "groupmask": 1, "stride": 8}, timeout=14400),
     ],
 )
 
